@@ -226,8 +226,8 @@ def pieces(cfg, seg):
         a2 = u[0] * u[0] + u[1] * u[1]
         if a2 > 0:
             b = seg[0] * u[0] + seg[1] * u[1]
-            d2 = seg[0] * seg[0] + seg[1] * seg[1] - b * b / a2
-            if d2 <= (1e-9 * max(L, 1.0)) ** 2 and 0.0 < -b / a2 < L:
+            dist = abs(seg[0] * u[1] - seg[1] * u[0]) / math.sqrt(a2)       # distance of the line from the axis
+            if dist <= 1e-9 * max(L, 1.0) and 0.0 < -b / a2 < L:
                 axis_t = -b / a2
     for t0, t1 in zip(ts, ts[1:]):
         if axis_t is not None and t0 == axis_t:
